@@ -106,6 +106,7 @@ PROPS = {
         "units": [
             {"pkg": "./c06", "race": True, "shards": 4, "shards_thorough": 8, "timeout": 300},
             {"pkg": "./mainpkg", "run": "^TestC06", "race": True, "shards": 2, "shards_thorough": 4, "timeout": 300},
+            {"pkg": "./c12", "run": "^TestC06", "shards": 2, "shards_thorough": 4, "timeout": 300},
         ],
         "parallel": 4,
         "rule": ("rapid-generated concurrent workloads, all under the Go race detector: (a) routes with 2-12 weighted/unweighted targets: L lookups sequentially on one copy of the table and the same L lookups split over "
